@@ -59,3 +59,34 @@ class GetDictValue(Contract):
 
 
 CONTRACTS = [GetDictValue()]
+
+
+# ------------------------------------------------------------------------------------------ leaf annotations
+from .c06_input_types import input_scalar_ann          # noqa: E402
+from .c05_result_fields import result_scalar_ann       # noqa: E402
+
+
+class ScalarAnnotation(Contract):
+    """statement: `parsed / serialised exactly once per occurrence`: the leaf annotation of a configured scalar is its
+    Python type, wrapped exactly once in Annotated[T, BeforeValidator(parse)] (results) / Annotated[T,
+    PlainSerializer(serialize)] (inputs) iff a parse / serialize function is configured"""
+    props = ("C07",)
+    use_at_calls = False
+
+    def __init__(self, fn, spec):
+        self.target = f"ariadne_codegen.client_generators.scalars:{fn}"
+        self.spec = spec
+
+    def setup(self, E):
+        return [], dict(data=E.sym("data", SCALAR_DATA))
+
+    def ensures(self, A, res):
+        return {"type-wrapped-exactly-once-iff-a-function-is-configured": res == self.spec(A.data)}
+
+    def samples(self, tier):
+        return [dict(data=SC.ScalarData(type_="datetime.datetime")), dict(data=SC.ScalarData(type_="T", parse="m.parse", serialize="m.ser")),
+                dict(data=SC.ScalarData(type_="T", parse="parse")), dict(data=SC.ScalarData(type_="T", serialize="ser"))]
+
+
+CONTRACTS += [ScalarAnnotation("generate_result_scalar_annotation", result_scalar_ann),
+              ScalarAnnotation("generate_input_scalar_annotation", input_scalar_ann)]
